@@ -1016,3 +1016,46 @@ def positions_of_type(t):
             if d['type'] == t and not (a.startswith('xlink:') or a in ('xml:space', 'name', 'source', 'xml:lang')):
                 out.append(('attr', e, a))
     return out
+
+
+def complex_extension_pairs():
+    """(derived complex type, base complex type, attributes the extension adds) for every complexContent extension."""
+    out = []
+    for n, ct in sorted(_ctypes.items()):
+        for c in ct:
+            if _tag(c) == 'complexContent':
+                ext = c[0]
+                base = ext.get('base')
+                if base in _ctypes:
+                    added = sorted(set(_attrs_of_type(n)) - set(_attrs_of_type(base)))
+                    out.append((n, base, added))
+    return out
+
+
+def elements_of_type(t):
+    return [e for e in ALL_ELEMENTS if ELEM_TYPE[e] == t]
+
+
+def _leaf_counts(ast, acc):
+    k = ast[0]
+    if k == 'el':
+        acc[ast[1]] = acc.get(ast[1], 0) + 1
+    elif k in ('seq', 'cho'):
+        for c in ast[1]:
+            _leaf_counts(c, acc)
+    elif k == 'rep':
+        _leaf_counts(ast[1], acc)
+    return acc
+
+
+def ambiguous_names(elem_name):
+    """Child names that occur at more than one position of the element's content model (where a first-fit matcher
+    has to choose a slot and an "intelligent choice" may later move the child)."""
+    m = model_for_element(elem_name)
+    if m is None:
+        return []
+    acc = _leaf_counts(m.ast, {})
+    return sorted(k for k, v in acc.items() if v > 1)
+
+
+AMBIGUOUS_ELEMENTS = sorted(e for e in ELEMENT_CONTENT_ELEMENTS if ambiguous_names(e))
